@@ -265,6 +265,9 @@ class NxMixedGraph:
 
         rv = cls()
         for node, data in graph.nodes.items():
+            if not data[tag]:
+                rv.add_node(node)
+        for node, data in graph.nodes.items():
             if data[tag]:
                 for a, b in itt.combinations(graph.successors(node), 2):
                     rv.add_undirected_edge(a, b)
